@@ -182,6 +182,10 @@ def run_lookup_case(x):
                 probs.append(f"size({l})")
             if not (l in X and S.NAMES[l] in X and D(l) in X):
                 probs.append(f"membership of {l}")
+        # membership is by letter or name, not by substring of the concatenated letters
+        for probe in ["", "".join(x), "".join(x[:2]), "".join(x[-2:]), "".join(reversed(x))] + [S.NAMES[l][:3] for l in x]:
+            if len(probe) != 1 and probe not in [S.NAMES[l] for l in x] and probe in X:
+                probs.append(f"{probe!r} reported as a member")
         for l in "abcdef":
             if l not in x:
                 if l in X or S.NAMES[l] in X or D(l) in X:
@@ -240,6 +244,8 @@ def e2_ops():
             for dim in ("e", "clash"):
                 ops.append(dict(op="insert", tgt=tgt, inplace=inplace, dim=dim, pos=1))
                 ops.append(dict(op="expand_by", tgt=tgt, inplace=inplace, dim=dim))
+                ops.append(dict(op="expand_by2", tgt=tgt, inplace=inplace, dim=dim, order="first"))
+                ops.append(dict(op="expand_by2", tgt=tgt, inplace=inplace, dim=dim, order="last"))
                 ops.append(dict(op="replace", tgt=tgt, inplace=inplace, dim=dim, key="first"))
             ops.append(dict(op="drop", tgt=tgt, inplace=inplace, key="first"))
             ops.append(dict(op="drop", tgt=tgt, inplace=inplace, key="last-by-name"))
@@ -305,7 +311,17 @@ def apply_op(st, op, check):
     must_raise = False
     new_model = None  # model of the result (in-place: new content of target; else: new S)
     inplace = op.get("inplace", False)
-    if name in ("append", "prepend", "insert", "expand_by", "replace"):
+    if name == "expand_by2":
+        # two dimensions at once: a fresh one (f) together with `dim` (fresh e or a clash), in both orders
+        dim, ml, clash = pick_dim(op["dim"], mod)
+        other = D("f")
+        clash = clash or ("f" in mod)
+        must_raise = clash
+        pair = [dim, other] if op["order"] == "first" else [other, dim]
+        mls = [ml, "f"] if op["order"] == "first" else ["f", ml]
+        new_model = mod + mls
+        call = lambda: obj.expand_by(pair, inplace=inplace)
+    elif name in ("append", "prepend", "insert", "expand_by", "replace"):
         dim, ml, clash = pick_dim(op["dim"], mod)
         if name == "replace":
             if not mod:
